@@ -1,5 +1,6 @@
 """C11 — editing operations keep the document sound (DESIGN §4 C11)."""
 import re
+import inv
 import lib, prop_c09, term
 from mir import op_place, AnchorLost
 
@@ -115,6 +116,38 @@ def _run(ctx):
                     reads_parent = True
         ctx.ob("R-ORDER", "no-shadowing-of-inherited-resources|%s" % fn, (not creates) or reads_parent, "creating /Resources consults the Parent chain", b.where(),
                what="%s creates an empty /Resources on a page without looking at the Parent chain: a page that inherits /Font or /XObject from its ancestors loses them as soon as add_xobject/add_graphics_state is called" % fn)
+    # 5b. an empty sub-dictionary (/XObject, /ExtGState, /Resources itself) is put into a dictionary only where the key is ABSENT:
+    # the store of `Dictionary::new()` is dominated by `!has(key)` (or by `get(key)` itself being an error) for the same key —
+    # any other test (is it a direct dictionary? is it non-empty?) can be true for an entry that exists and would replace it
+    nsub = 0
+    for fn in ("Document::add_xobject", "Document::add_graphics_state", "IncrementalDocument::add_xobject", "IncrementalDocument::add_graphics_state",
+               "Document::get_or_create_resources", "IncrementalDocument::get_or_create_resources"):
+        b = F.fn(fn)
+        for k, v, c in lib.dict_sets(b):
+            if not k:
+                continue
+            fresh = re.match(r"^(new\(\)|<.*Default>::default\(\)|unwrap_or_default\(.*\))$", b.oname(v, 3)) is not None
+            if not fresh:
+                continue
+            nsub += 1
+            kr = re.escape(repr(k)[1:])
+            okg = False
+            for gd, tr in inv.rendered_guards(b, c.bb):
+                if re.match(r"^has\(&?\*?\w+,&?\*?b%s( as &\[u8\])?\)$" % kr, gd) and not tr:
+                    okg = True
+                if re.match(r"^is_(err|ok)\(&?get(_mut)?\(&?\*?\w+,&?\*?b%s( as &\[u8\])?\)\)$" % kr, gd) and tr == gd.startswith("is_err"):
+                    okg = True
+            ctx.ob("R-ORDER", "sub-dictionary-created-only-when-absent|%s|%s" % (fn, k.decode()), okg, "the empty /%s is stored only under !has(%s)" % (k.decode(), k.decode()), b.where(c.ln),
+                   what="%s puts a new empty /%s into the dictionary under a condition other than the key being absent: an existing /%s (for example one held by reference) is replaced by an empty dictionary and what it contained is lost to the page" % (fn, k.decode(), k.decode()))
+    ctx.floor("R-ORDER", "places that create an empty sub-dictionary of the resources", nsub, 4)
+    # 5c. the incremental document looks for inherited resources in its new revision first: an ancestor that was cloned into
+    # the new document and edited there supersedes its old state
+    gi = F.fn("IncrementalDocument::get_or_create_resources")
+    mainc = [gi.oname(c.args[0], 4) for c in gi.calls if c.local and c.cname.endswith("inherited_resources")]
+    clc = [x.oname(c.args[0], 4) for x in F.closures_of(gi.path) for c in x.calls if c.local and c.cname.endswith("inherited_resources")]
+    okn = len(mainc) == 1 and "new_document" in mainc[0] and all("prev_documents" in t for t in clc) and len(clc) <= 1
+    ctx.ob("R-ORDER", "inherited-resources-new-revision-first", okn, "inherited_resources is asked of new_document first (%s), of prev_documents only as the fallback (%s)" % (mainc, clc), gi.where(),
+           what="IncrementalDocument::get_or_create_resources does not look for the inherited /Resources in the new revision first (asked first: %s; fallback: %s): an ancestor cloned into the update and edited there is ignored" % (mainc, clc))
     # 6. compress / decompress keep dictionaries consistent with data
     prop_c09.length_rules(ctx, F)
     dc = F.fn("Stream::decompressed_content")
